@@ -10,6 +10,15 @@ Three independent views of every history are compared step by step:
     into a per-step checksum; the driver folds the implementation's observations
     the same way and Coq compares the last checksum (each step's checksum chains
     on the previous one, so a disagreement at any step changes the last).
+
+Observation discipline: every history has a `look` interval (1, 2, 3 or 5).  The
+full observable state (iteration / get_chunks, len, bool, each, get_spans) is
+queried only after every `look`-th step and at the end; in between only what
+the operations themselves return (contains / get / pop results, exceptions) is
+judged.  Queries after every single mutation cannot notice state that survives
+between two queries (a cached answer keyed on something that two mutations
+together leave unchanged), so most histories do not query that often; the Coq
+side uses the same discipline (sp_trace_look / ds_trace_look).
 """
 import json
 import os
@@ -22,8 +31,11 @@ GEN = []
 RULE = ("cases: one case = one seeded operation history (Spans: add/remove/contains/+/-/&/+=/-= ; DataSpans: "
         "add/remove/get/pop) of length <= 60 quick / <= 200 thorough over offsets 0..300 (profiles: tiny 0..24, "
         "normal 0..300, big 2**64+..., 2**32 boundary), plus hand-written edge histories (zero length, adjacency, "
-        "overlap shapes, 2**64 offsets); every step is compared with a reference set / dict; distinct = distinct "
-        "history; non-trivial = history that reaches a state with >= 3 spans and exercises a merge or a split")
+        "overlap shapes, 2**64 offsets, block moves); each history has a look interval 1/2/3/5: the full state (iteration, "
+        "len, each, get_chunks, _dump, get_spans) is compared with a reference set / dict only after every look-th step and at "
+        "the end, operation results (contains/get/pop) at every step; sequences are biased towards 'remove/pop a block, add an "
+        "equally long block elsewhere'; distinct = distinct (history, look); non-trivial = history that reaches a state with "
+        ">= 3 spans and exercises a merge and a split")
 META = {
     "title": "Byte-range bookkeeping is exact",
     "level_text": ("Theorems in Coq over an executable model of util/spans.py that follows the code's algorithms (scan/merge in "
@@ -134,10 +146,25 @@ def gen_spans_history(r, nops, profile):
     maxlen = 6 if profile == "tiny" else 25
     ref = set()
     ops = []
-    for _ in range(nops):
+    while len(ops) < nops:
         cur = runs_of(ref)
         k = r.random()
-        if k < 0.36 or not ref:
+        if k < 0.08 and cur:
+            # move a block: remove m bytes here, add m bytes elsewhere (element count unchanged)
+            (a, n) = r.choice(cur)
+            m = n if r.random() < 0.5 else 1 + r.randrange(n)
+            a2 = a if r.random() < 0.5 else a + n - m
+            dest = a2 + m if r.random() < 0.3 else base + r.randrange(width)
+            pair = [("remove", a2, m), ("add", dest, m)]
+            if r.random() < 0.25:
+                pair.reverse()
+            for op in pair:
+                ops.append(op)
+                if op[0] == "add":
+                    ref |= set(range(op[1], op[1] + op[2]))
+                else:
+                    ref -= set(range(op[1], op[1] + op[2]))
+        elif k < 0.36 or not ref:
             a, n = _pick_span(r, base, width, cur, maxlen)
             ops.append(("add", a, n))
             if n:
@@ -190,29 +217,53 @@ class Stop(Exception):
     pass
 
 
-def exec_spans_history(ctx, ops, case, report=True):
-    """Run on the real Spans and on the reference set.  Returns (trace of
-    checksums, deep?) -- reports oracle failures through ctx (first one per
-    history, then the history stops)."""
+def exec_spans_history(ctx, ops, case, look=1, report=True, per_step=False):
+    """Run on the real Spans and on the reference set.  The state is queried
+    only after every `look`-th step and at the end.  Returns a dict: h (chained
+    checksum in the sp_trace_look format, None if the history stopped early),
+    done, deep, ok, trace (per-step checksums in the sp_trace format, only with
+    per_step=True, a diagnostic mode that queries after every step)."""
     from allmydata.util.spans import Spans
     s = Spans()
     ref = set()
+    hl = 0
     h = 0
     trace = []
-    deep = False
-    merged = split = False
+    st = {"deep": False, "merged": False, "split": False, "last_look": -1, "done": 0}
+    case = dict(case, look=look)
 
     def fail(kind, what, step, expected=None, observed=None):
         if report:
-            ctx.oracle_fail(kind, "step %d %r: %s" % (step, ops[step], what), case=dict(case, step=step, op=list(ops[step])),
-                            expected=expected, observed=observed)
+            ctx.oracle_fail(kind, "step %d %r (state last queried after step %d): %s" % (step, ops[step], st["last_look"], what),
+                            case=dict(case, step=step, op=list(ops[step])), expected=expected, observed=observed)
         raise Stop()
 
+    def full_look(step, kind):
+        pairs = list(s)
+        want = runs_of(ref)
+        if pairs != want:
+            got_set = set_of(pairs) if all(n >= 0 and n < 10 ** 6 for _, n in pairs) else None
+            if got_set == ref:
+                fail("spans-representation-not-canonical:" + kind, "iteration gives %r, canonical form of the same set is %r" % (pairs, want), step,
+                     expected=want, observed=pairs)
+            fail("spans-set-differs:" + kind, "Spans holds %r, reference set is %r" % (pairs, want), step, expected=want, observed=pairs)
+        if s.len() != len(ref):
+            fail("spans-len-differs", "len() = %d, reference set has %d" % (s.len(), len(ref)), step, expected=len(ref), observed=s.len())
+        if bool(s) != bool(ref):
+            fail("spans-bool-differs", "bool() = %s" % bool(s), step)
+        if len(ref) <= 2000 and list(s.each()) != sorted(ref):
+            fail("spans-each-differs", "each() = %r" % list(s.each())[:50], step, expected=sorted(ref)[:50])
+        st["last_look"] = step
+
+    c = look - 1
     try:
         for step, op in enumerate(ops):
             kind = op[0]
-            before = list(s)
+            full = (c == 0) or per_step
+            nruns = len(runs_of(ref))
+            before = list(s) if full else None
             code = 1
+            got = None
             try:
                 if kind == "add":
                     if op[2] > 0:
@@ -258,7 +309,7 @@ def exec_spans_history(ctx, ops, case, report=True):
                         s2 -= other
                         ref = ref - oref
                     if kind in ("union", "diff", "inter"):
-                        if list(s) != before:
+                        if before is not None and list(s) != before:
                             fail("spans-binary-op-mutates-left-operand", "left operand changed from %r to %r" % (before, list(s)), step)
                         if s2 is s and kind != "inter":
                             fail("spans-binary-op-returns-self", "operator returned the left operand itself", step)
@@ -270,42 +321,46 @@ def exec_spans_history(ctx, ops, case, report=True):
                 zero = kind in ("add", "remove") and op[2] == 0
                 if not zero:
                     fail("spans-unexpected-assertion:" + kind, "AssertionError on a valid operation", step, observed=s.dump())
-                if list(s) != before:
+                if before is not None and list(s) != before:
                     fail("spans-rejected-op-mutates", "rejected op changed state %r -> %r" % (before, list(s)), step)
             else:
                 if kind in ("add", "remove") and op[2] == 0:
                     fail("spans-zero-length-accepted", "%s(%d, 0) did not raise AssertionError" % (kind, op[1]), step)
-            # ---- the property, evaluated on the observable state --------------------
-            pairs = list(s)
-            want = runs_of(ref)
-            if pairs != want:
-                got_set = set_of(pairs) if all(n >= 0 and n < 10 ** 6 for _, n in pairs) else None
-                if got_set == ref:
-                    fail("spans-representation-not-canonical:" + kind, "iteration gives %r, canonical form of the same set is %r" % (pairs, want), step,
-                         expected=want, observed=pairs)
-                fail("spans-set-differs:" + kind, "Spans holds %r, reference set is %r" % (pairs, want), step, expected=want, observed=pairs)
-            if s.len() != len(ref):
-                fail("spans-len-differs", "len() = %d, reference set has %d" % (s.len(), len(ref)), step, expected=len(ref), observed=s.len())
-            if bool(s) != bool(ref):
-                fail("spans-bool-differs", "bool() = %s" % bool(s), step)
-            if len(ref) <= 2000 and list(s.each()) != sorted(ref):
-                fail("spans-each-differs", "each() = %r" % list(s.each())[:50], step, expected=sorted(ref)[:50])
-            if len(pairs) < len(before) and kind in ("add", "union", "iadd"):
-                merged = True
-            if len(pairs) > len(before) and kind in ("remove", "diff", "isub", "inter"):
-                split = True
-            if len(pairs) >= 3 and merged and split:
-                deep = True
-            h = mix_list(h, [code] + ([int(got)] if kind == "contains" else []) + obs_spans(s))
-            trace.append(h)
+            res = [code] + ([int(got)] if kind == "contains" else [])
+            hl = mix_list(hl, res)
+            nruns2 = len(runs_of(ref))
+            if nruns2 < nruns and kind in ("add", "union", "iadd"):
+                st["merged"] = True
+            if nruns2 > nruns and kind in ("remove", "diff", "isub", "inter"):
+                st["split"] = True
+            if nruns2 >= 3 and st["merged"] and st["split"]:
+                st["deep"] = True
+            if c == 0:
+                # ---- the property, evaluated on the observable state ----------------
+                full_look(step, kind)
+                hl = mix_list(hl, obs_spans(s))
+                c = look - 1
+            else:
+                c -= 1
+            if per_step:
+                h = mix_list(h, res + obs_spans(s))
+                trace.append(h)
+            st["done"] = step + 1
+        if ops:
+            full_look(len(ops) - 1, "end")
+        hl = mix_list(hl, [9] + obs_spans(s))
     except Stop:
-        return trace, deep, False
+        return {"h": None, "done": st["done"], "deep": st["deep"], "ok": False, "trace": trace}
     except Exception as e:   # any other exception out of the implementation
         if report:
-            ctx.oracle_fail("spans-op-raises:" + type(e).__name__, "step %d %r raised %s: %s" % (len(trace), ops[len(trace)], type(e).__name__, e),
-                            case=dict(case, step=len(trace), op=list(ops[len(trace)])))
-        return trace, deep, False
-    return trace, deep, True
+            k = st["done"]
+            ctx.oracle_fail("spans-op-raises:" + type(e).__name__, "step %d %r raised %s: %s" % (k, ops[min(k, len(ops) - 1)], type(e).__name__, e),
+                            case=dict(case, step=k, op=list(ops[min(k, len(ops) - 1)])))
+        return {"h": None, "done": st["done"], "deep": st["deep"], "ok": False, "trace": trace}
+    return {"h": hl, "done": st["done"], "deep": st["deep"], "ok": True, "trace": trace}
+
+
+LOOKS = [1, 2, 3, 5]
 
 
 EDGE_SPANS = [
@@ -332,43 +387,48 @@ def spans_part(ctx):
     terms = []
     info = []
     maxops = ctx.n(60, 200)
-    n = ctx.n(150, 1500)
+    n = ctx.n(140, 1500)
     cases = []
     for k, ops in enumerate(EDGE_SPANS):
-        cases.append(({"stream": "spans-edge", "index": k}, ops, "spans-edge"))
+        cases.append(({"stream": "spans-edge", "index": k}, ops, "spans-edge", 1))
+        cases.append(({"stream": "spans-edge", "index": k}, ops, "spans-edge", [2, 3, 5][k % 3]))
     for i in range(n):
         r = ctx.rng("spans", i)
         profile = _profile(r, i)
         nops = r.choice([maxops, maxops, maxops // 2, maxops // 4, 5])
+        look = LOOKS[r.randrange(4)]
         ops = gen_spans_history(r, nops, profile)
-        cases.append(({"stream": "spans", "index": i, "profile": profile, "nops": nops}, ops, "spans-" + profile))
-    for path in corpus_files("spans"):
+        cases.append(({"stream": "spans", "index": i, "profile": profile, "nops": nops}, ops, "spans-" + profile, look))
+    for j, path in enumerate(corpus_files("spans")):
         rec = json.load(open(path))
-        cases.insert(0, ({"stream": "corpus", "file": os.path.basename(path)}, [_untuple(o) for o in rec["ops"]], "spans-corpus"))
-    for case, ops, kind in cases:
-        trace, deep, ok = exec_spans_history(ctx, ops, dict(case, ops=[list(o) for o in ops]))
-        ctx.case(("spans", tuple(ops)) if deep else None, kind=kind)
-        for op in ops[:len(trace)]:
+        for look in (1, [2, 3, 5][j % 3]):
+            cases.insert(0, ({"stream": "corpus", "file": os.path.basename(path)}, [_untuple(o) for o in rec["ops"]], "spans-corpus", look))
+    for case, ops, kind, look in cases:
+        res = exec_spans_history(ctx, ops, dict(case, ops=[list(o) for o in ops]), look=look)
+        ctx.case(("spans", look, tuple(ops)) if res["deep"] else None, kind=kind)
+        ctx.count("look:spans.every-%d" % look)
+        for op in ops[:res["done"]]:
             ctx.count("op:spans." + op[0])
-        if not trace:
+        if res["h"] is None:
             continue
-        done = ops[:len(trace)]
-        terms.append("N.eqb (sp_trace_last %s) %s" % (spans_term(done), T.N(trace[-1])))
-        info.append((case, done, trace))
+        terms.append("N.eqb (sp_trace_look %s %s) %s" % (T.nat(look), spans_term(ops), T.N(res["h"])))
+        info.append((case, ops, look))
         if len(ctx.samples) < 2 and kind == "spans-tiny":
-            ctx.sample({"kind": "Spans history", "ops": [list(o) for o in done[:12]], "checksum_after_last_step": trace[-1]})
+            ctx.sample({"kind": "Spans history", "state_queried_every": look, "ops": [list(o) for o in ops[:12]], "checksum": res["h"]})
     bad = ctx.coq_check(IMPORTS, terms, tag="c37sp", shard=60)
     for ix in bad:
-        case, ops, trace = info[ix]
-        step, model_h = locate(ctx, "sp_trace", spans_term(ops), trace)
-        ctx.mismatch("spans-model-vs-impl", "Coq model and real Spans disagree first at step %s (%r)" % (step, ops[step] if step is not None else None),
-                     case=dict(case, ops=[list(o) for o in ops], step=step), expected={"model_checksum": model_h},
-                     observed={"impl_checksum": trace[step] if step is not None else None}, correspondence="spans-history-vs-model")
+        case, ops, look = info[ix]
+        diag = exec_spans_history(ctx, ops, dict(case), look=1, report=False, per_step=True)
+        step, model_h = locate(ctx, "sp_trace", spans_term(ops), diag["trace"])
+        ctx.mismatch("spans-model-vs-impl", "Coq model and real Spans disagree (state queried every %d steps); when queried after every step they differ first at step %s (%r)"
+                     % (look, step, ops[step] if step is not None else None),
+                     case=dict(case, ops=[list(o) for o in ops], step=step, look=look), expected={"model_checksum": model_h},
+                     observed={"impl_checksum": diag["trace"][step] if step is not None else None}, correspondence="spans-history-vs-model")
     ctx.trace(len(terms) - len(bad))
 
 
 def locate(ctx, fn, term, trace):
-    """first step at which the model's chained checksum differs from the implementation's"""
+    """first step at which the model's per-step chained checksum differs from the implementation's"""
     out = ctx.coq_eval(IMPORTS, "%s %s" % (fn, term))
     import re
     m = re.search(r"=\s*\[(.*?)\]", out, re.S)
@@ -389,29 +449,59 @@ def gen_ds_history(r, nops, profile):
     maxlen = 5 if profile == "tiny" else 30
     ref = {}
     ops = []
-    for _ in range(nops):
-        cur = runs_of(ref.keys())
-        k = r.random()
-        if k < 0.42 or not ref:
-            a, n = _pick_span(r, base, width, cur, maxlen)
-            data = bytes(r.getrandbits(8) for _ in range(n))
-            ops.append(("add", a, data))
-            for j, b in enumerate(data):
-                ref[a + j] = b
-        elif k < 0.62:
-            a, n = _pick_span(r, base, width, cur, maxlen)
-            ops.append(("remove", a, n))
-            for x in range(a, a + n):
-                ref.pop(x, None)
-        elif k < 0.82:
-            a, n = _pick_span(r, base, width, cur, maxlen)
-            ops.append(("get", a, n))
-        else:
-            a, n = _pick_span(r, base, width, cur, maxlen)
-            ops.append(("pop", a, n))
+
+    def apply(op):
+        ops.append(op)
+        if op[0] == "add":
+            for j, b in enumerate(op[2]):
+                ref[op[1] + j] = b
+        elif op[0] == "remove":
+            for x in [x for x in ref if op[1] <= x < op[1] + op[2]]:
+                del ref[x]
+        elif op[0] == "pop":
+            a, n = op[1], op[2]
             if n and all(x in ref for x in range(a, a + n)):
                 for x in range(a, a + n):
                     del ref[x]
+
+    while len(ops) < nops:
+        cur = runs_of(ref.keys())
+        k = r.random()
+        if k < 0.14 and cur:
+            # consume a block and receive an equally long one elsewhere: the number of
+            # bytes (and often of chunks) held is the same afterwards, the offsets are not
+            (a, n) = r.choice(cur)
+            m = n if r.random() < 0.6 else 1 + r.randrange(n)
+            a2 = a if r.random() < 0.5 else a + n - m
+            if r.random() < 0.3:
+                dest = a2 + m                      # the next block (steady state of a download)
+            else:
+                dest = base + r.randrange(width)
+                for _ in range(8):                 # prefer an isolated place: chunk count unchanged too
+                    if not any(x in ref for x in range(max(0, dest - 1), dest + m + 1)):
+                        break
+                    dest = base + r.randrange(width)
+            first = (r.choice(["pop", "pop", "remove"]), a2, m)
+            second = ("add", dest, bytes(r.getrandbits(8) for _ in range(m)))
+            pair = [first, second]
+            if r.random() < 0.2:
+                pair.reverse()
+            for op in pair:
+                apply(op)
+            if r.random() < 0.3:
+                apply(("get", dest, m))
+        elif k < 0.46 or not ref:
+            a, n = _pick_span(r, base, width, cur, maxlen)
+            apply(("add", a, bytes(r.getrandbits(8) for _ in range(n))))
+        elif k < 0.64:
+            a, n = _pick_span(r, base, width, cur, maxlen)
+            apply(("remove", a, n))
+        elif k < 0.82:
+            a, n = _pick_span(r, base, width, cur, maxlen)
+            apply(("get", a, n))
+        else:
+            a, n = _pick_span(r, base, width, cur, maxlen)
+            apply(("pop", a, n))
     return ops
 
 
@@ -439,25 +529,63 @@ def obs_dspans(d):
     return out
 
 
-def exec_ds_history(ctx, ops, case, report=True):
+def obs_ds_full(d):
+    """get_chunks/len and get_spans, in the format of obs_ds_full in Model/Spans.v"""
+    return obs_dspans(d) + [1] + obs_spans(d.get_spans())
+
+
+def exec_ds_history(ctx, ops, case, look=1, report=True, per_step=False):
+    """Same discipline as exec_spans_history: get_chunks / len / bool / get_spans /
+    _dump are queried only after every `look`-th step and at the end; get and pop
+    are operations of the history and are judged whenever they occur."""
     from allmydata.util.spans import DataSpans
     d = DataSpans()
     ref = {}
+    hl = 0
     h = 0
     trace = []
-    deep = False
-    merged = split = False
+    st = {"deep": False, "merged": False, "split": False, "last_look": -1, "done": 0}
+    case = dict(case, look=look)
 
     def fail(kind, what, step, expected=None, observed=None):
         if report:
-            ctx.oracle_fail(kind, "step %d %r: %s" % (step, _show(ops[step]), what), case=dict(case, step=step, op=_show(ops[step])),
-                            expected=expected, observed=observed)
+            ctx.oracle_fail(kind, "step %d %r (state last queried after step %d): %s" % (step, _show(ops[step]), st["last_look"], what),
+                            case=dict(case, step=step, op=_show(ops[step])), expected=expected, observed=observed)
         raise Stop()
 
+    def full_look(step, kind):
+        chunks = d.get_chunks()
+        want_chunks = chunks_of(ref)
+        if chunks != want_chunks:
+            got_map = {}
+            for (a, data) in chunks:
+                for j, b in enumerate(data):
+                    got_map.setdefault(a + j, b)
+            if got_map == ref:
+                fail("dataspans-representation-not-canonical:" + kind, "chunks %r are not the merged sorted form" % _hc(chunks), step,
+                     expected=_hc(want_chunks), observed=_hc(chunks))
+            fail("dataspans-map-differs:" + kind, "DataSpans holds %r, reference map is %r" % (_hc(chunks), _hc(want_chunks)), step,
+                 expected=_hc(want_chunks), observed=_hc(chunks))
+        if d.len() != len(ref):
+            fail("dataspans-len-differs", "len() = %d, reference has %d" % (d.len(), len(ref)), step)
+        if bool(d) != bool(ref):
+            fail("dataspans-bool-differs", "bool() = %s" % bool(d), step)
+        if len(ref) <= 2000 and list(d._dump()) != sorted(ref):
+            fail("dataspans-dump-differs", "_dump() = %r" % list(d._dump())[:50], step, expected=sorted(ref)[:50])
+        gs = d.get_spans()
+        want_gs = runs_of(ref.keys())
+        if list(gs) != want_gs:
+            held = set(ref)
+            rep = set_of(list(gs)) if all(0 <= n < 10 ** 6 for _, n in gs) else set()
+            fail("dataspans-get-spans-differs", "get_spans() = %r but the offsets held are %r (not reported: %r, reported but not held: %r)"
+                 % (list(gs), want_gs, sorted(held - rep)[:20], sorted(rep - held)[:20]), step, expected=want_gs, observed=list(gs))
+        st["last_look"] = step
+
+    c = look - 1
     try:
         for step, op in enumerate(ops):
             kind = op[0]
-            nbefore = len(d.get_chunks())
+            nruns = len(runs_of(ref.keys()))
             extra = []
             code = 1
             if kind == "add":
@@ -475,7 +603,7 @@ def exec_ds_history(ctx, ops, case, report=True):
                     want = bytes(ref[x] for x in range(a, a + n)) if present else None
                 else:
                     # zero-length read: the code answers b"" when `start` is held and None otherwise
-                    # (neither caller relies on it; recorded in the theorem ds_get_zero_length)
+                    # (neither caller relies on it; theorem dataspans_refine_partial_map states it)
                     want = b"" if a in ref else None
                 if kind == "get":
                     code = 7
@@ -490,46 +618,43 @@ def exec_ds_history(ctx, ops, case, report=True):
                     fail("dataspans-%s-wrong" % kind, "%s(%d,%d) = %r, reference map gives %r" % (kind, a, n, _hx(got), _hx(want)), step,
                          expected=_hx(want), observed=_hx(got))
                 extra = obs_bytes(got)
-            chunks = d.get_chunks()
-            want_chunks = chunks_of(ref)
-            if chunks != want_chunks:
-                got_map = {}
-                for (a, data) in chunks:
-                    for j, b in enumerate(data):
-                        got_map.setdefault(a + j, b)
-                if got_map == ref:
-                    fail("dataspans-representation-not-canonical:" + kind, "chunks %r are not the merged sorted form" % _hc(chunks), step,
-                         expected=_hc(want_chunks), observed=_hc(chunks))
-                fail("dataspans-map-differs:" + kind, "DataSpans holds %r, reference map is %r" % (_hc(chunks), _hc(want_chunks)), step,
-                     expected=_hc(want_chunks), observed=_hc(chunks))
-            if d.len() != len(ref):
-                fail("dataspans-len-differs", "len() = %d, reference has %d" % (d.len(), len(ref)), step)
-            if bool(d) != bool(ref):
-                fail("dataspans-bool-differs", "bool() = %s" % bool(d), step)
-            if len(chunks) < nbefore + (1 if kind == "add" else 0) and kind == "add" and nbefore:
-                merged = True
-            if len(chunks) > nbefore and kind in ("remove", "pop"):
-                split = True
-            if len(chunks) >= 3 and merged and split:
-                deep = True
-            h = mix_list(h, [code] + extra + obs_dspans(d))
-            trace.append(h)
-        # get_spans() and the copy constructor at the end of the history
-        gs = d.get_spans()
-        if list(gs) != runs_of(ref.keys()):
-            step = len(ops) - 1
-            fail("dataspans-get-spans-differs", "get_spans() = %r" % list(gs), step, expected=runs_of(ref.keys()), observed=list(gs))
-        c = DataSpans(d)
-        if c.get_chunks() != d.get_chunks():
-            fail("dataspans-copy-differs", "DataSpans(other) = %r" % _hc(c.get_chunks()), len(ops) - 1)
+            res = [code] + extra
+            hl = mix_list(hl, res)
+            nruns2 = len(runs_of(ref.keys()))
+            if kind == "add" and nruns and nruns2 <= nruns and len(op[2]):
+                st["merged"] = True
+            if nruns2 > nruns and kind in ("remove", "pop"):
+                st["split"] = True
+            if nruns2 >= 3 and st["merged"] and st["split"]:
+                st["deep"] = True
+            if c == 0:
+                full_look(step, kind)
+                hl = mix_list(hl, obs_ds_full(d))
+                c = look - 1
+            else:
+                c -= 1
+            if per_step:
+                h = mix_list(h, res + obs_dspans(d))
+                trace.append(h)
+            st["done"] = step + 1
+        if ops:
+            full_look(len(ops) - 1, "end")
+        hl = mix_list(hl, [9] + obs_ds_full(d))
+        # the copy constructor at the end of the history
+        cp = DataSpans(d)
+        if cp.get_chunks() != d.get_chunks():
+            fail("dataspans-copy-differs", "DataSpans(other) = %r" % _hc(cp.get_chunks()), len(ops) - 1)
+        if list(cp.get_spans()) != runs_of(ref.keys()):
+            fail("dataspans-copy-get-spans-differs", "DataSpans(other).get_spans() = %r" % list(cp.get_spans()), len(ops) - 1)
     except Stop:
-        return trace, deep, False, None
+        return {"h": None, "done": st["done"], "deep": st["deep"], "ok": False, "trace": trace}
     except Exception as e:
         if report:
-            ctx.oracle_fail("dataspans-op-raises:" + type(e).__name__, "step %d %r raised %s: %s" % (len(trace), _show(ops[len(trace)]), type(e).__name__, e),
-                            case=dict(case, step=len(trace), op=_show(ops[len(trace)])))
-        return trace, deep, False, None
-    return trace, deep, True, d
+            k = st["done"]
+            ctx.oracle_fail("dataspans-op-raises:" + type(e).__name__, "step %d %r raised %s: %s" % (k, _show(ops[min(k, len(ops) - 1)]), type(e).__name__, e),
+                            case=dict(case, step=k, op=_show(ops[min(k, len(ops) - 1)])))
+        return {"h": None, "done": st["done"], "deep": st["deep"], "ok": False, "trace": trace}
+    return {"h": hl, "done": st["done"], "deep": st["deep"], "ok": True, "trace": trace}
 
 
 def _hx(b):
@@ -570,6 +695,11 @@ EDGE_DS = [
     [("add", 2 ** 64 - 2, b"abcd"), ("add", 2 ** 64 + 2, b"ef"), ("get", 2 ** 64 - 1, 4), ("pop", 2 ** 64, 1), ("get", 2 ** 64 - 2, 2), ("remove", 2 ** 64 - 3, 2 ** 64), ("add", 2 ** 70, b"z")],
     [("add", 0, b"a"), ("add", 2, b"c"), ("add", 4, b"e"), ("add", 1, b"b"), ("add", 3, b"d"), ("get", 0, 5), ("pop", 0, 5), ("get", 0, 1)],
     [("add", 5, b"12345"), ("add", 3, b"ab"), ("add", 10, b"cd"), ("add", 0, b"xyz"), ("get", 0, 12), ("add", 4, b"Q"), ("add", 9, b"RS"), ("get", 0, 12)],
+    # a block is consumed and an equally long one arrives elsewhere between two looks at the state
+    [("add", 0, b"AAAA"), ("get", 0, 4), ("remove", 0, 4), ("add", 10, b"BBBB"), ("add", 100, b"x" * 20), ("get", 100, 20), ("pop", 100, 20), ("add", 120, b"y" * 20),
+     ("pop", 120, 20), ("add", 140, b"z" * 20), ("get", 140, 20), ("get", 10, 4)],
+    [("add", 10, b"abc"), ("add", 20, b"def"), ("add", 30, b"ghi"), ("pop", 10, 3), ("add", 40, b"jkl"), ("pop", 20, 3), ("add", 50, b"mno"), ("remove", 30, 3), ("add", 13, b"pqr"),
+     ("pop", 40, 2), ("add", 60, b"st"), ("get", 42, 1)],
 ]
 
 
@@ -577,53 +707,45 @@ def ds_part(ctx):
     ctx.correspondence("dataspans-history-vs-model")
     terms = []
     info = []
-    gs_terms = []
-    gs_info = []
     maxops = ctx.n(50, 200)
-    n = ctx.n(120, 1200)
+    n = ctx.n(110, 1200)
     cases = []
     for k, ops in enumerate(EDGE_DS):
-        cases.append(({"stream": "dataspans-edge", "index": k}, ops, "dataspans-edge"))
+        cases.append(({"stream": "dataspans-edge", "index": k}, ops, "dataspans-edge", 1))
+        cases.append(({"stream": "dataspans-edge", "index": k}, ops, "dataspans-edge", [2, 3, 5][k % 3]))
     for i in range(n):
         r = ctx.rng("ds", i)
         profile = _profile(r, i)
         nops = r.choice([maxops, maxops, maxops // 2, maxops // 4, 5])
+        look = LOOKS[r.randrange(4)]
         ops = gen_ds_history(r, nops, profile)
-        cases.append(({"stream": "dataspans", "index": i, "profile": profile, "nops": nops}, ops, "dataspans-" + profile))
-    for path in corpus_files("dataspans"):
+        cases.append(({"stream": "dataspans", "index": i, "profile": profile, "nops": nops}, ops, "dataspans-" + profile, look))
+    for j, path in enumerate(corpus_files("dataspans")):
         rec = json.load(open(path))
-        cases.insert(0, ({"stream": "corpus", "file": os.path.basename(path)}, [_untuple(o) for o in rec["ops"]], "dataspans-corpus"))
-    for case, ops, kind in cases:
-        trace, deep, ok, d = exec_ds_history(ctx, ops, dict(case, ops=[_show(o) for o in ops]))
-        ctx.case(("ds", tuple(ops)) if deep else None, kind=kind)
-        for op in ops[:len(trace)]:
+        for look in (1, rec.get("look") or [2, 3, 5][j % 3]):
+            cases.insert(0, ({"stream": "corpus", "file": os.path.basename(path)}, [_untuple(o) for o in rec["ops"]], "dataspans-corpus", look))
+    for case, ops, kind, look in cases:
+        res = exec_ds_history(ctx, ops, dict(case, ops=[_show(o) for o in ops]), look=look)
+        ctx.case(("ds", look, tuple(ops)) if res["deep"] else None, kind=kind)
+        ctx.count("look:dataspans.every-%d" % look)
+        for op in ops[:res["done"]]:
             ctx.count("op:dataspans." + op[0])
-        if not trace:
+        if res["h"] is None:
             continue
-        done = ops[:len(trace)]
-        terms.append("N.eqb (ds_trace_last %s) %s" % (ds_term(done), T.N(trace[-1])))
-        info.append((case, done, trace))
-        if ok and d is not None and len(gs_terms) < ctx.n(25, 200):
-            gs = d.get_spans()
-            want = [1] + obs_spans(gs)
-            gs_terms.append("list_N_eqb (match ds_run %s with Some l => obs_get_spans l | None => [99] end) %s" % (ds_term(done), T.lst([T.N(v) for v in want])))
-            gs_info.append((case, done))
+        terms.append("N.eqb (ds_trace_look %s %s) %s" % (T.nat(look), ds_term(ops), T.N(res["h"])))
+        info.append((case, ops, look))
         if len(ctx.samples) < 4 and kind == "dataspans-tiny":
-            ctx.sample({"kind": "DataSpans history", "ops": [_show(o) for o in done[:10]], "checksum_after_last_step": trace[-1]})
+            ctx.sample({"kind": "DataSpans history", "state_queried_every": look, "ops": [_show(o) for o in ops[:10]], "checksum": res["h"]})
     bad = ctx.coq_check(IMPORTS, terms, tag="c37ds", shard=40)
     for ix in bad:
-        case, ops, trace = info[ix]
-        step, model_h = locate(ctx, "ds_trace", ds_term(ops), trace)
-        ctx.mismatch("dataspans-model-vs-impl", "Coq model and real DataSpans disagree first at step %s (%r)" % (step, _show(ops[step]) if step is not None else None),
-                     case=dict(case, ops=[_show(o) for o in ops], step=step), expected={"model_checksum": model_h},
-                     observed={"impl_checksum": trace[step] if step is not None else None}, correspondence="dataspans-history-vs-model")
+        case, ops, look = info[ix]
+        diag = exec_ds_history(ctx, ops, dict(case), look=1, report=False, per_step=True)
+        step, model_h = locate(ctx, "ds_trace", ds_term(ops), diag["trace"])
+        ctx.mismatch("dataspans-model-vs-impl", "Coq model and real DataSpans disagree (state queried every %d steps); when queried after every step they differ first at step %s (%r)"
+                     % (look, step, _show(ops[step]) if step is not None else None),
+                     case=dict(case, ops=[_show(o) for o in ops], step=step, look=look), expected={"model_checksum": model_h},
+                     observed={"impl_checksum": diag["trace"][step] if step is not None else None}, correspondence="dataspans-history-vs-model")
     ctx.trace(len(terms) - len(bad))
-    bad = ctx.coq_check(IMPORTS, gs_terms, tag="c37gs", shard=40)
-    for ix in bad:
-        case, ops = gs_info[ix]
-        ctx.mismatch("dataspans-get-spans-model-vs-impl", "Coq model and real DataSpans.get_spans() disagree after the history",
-                     case=dict(case, ops=[_show(o) for o in ops]), correspondence="dataspans-history-vs-model")
-    ctx.trace(len(gs_terms) - len(bad))
 
 
 # =============================================================================
@@ -691,24 +813,25 @@ def run(ctx):
 
 
 def replay(ctx, rec):
-    """Re-run the recorded history on the implementation (and, for a
-    correspondence record, in Coq)."""
+    """Re-run the recorded history on the implementation with the recorded `look`
+    interval (and show the model's side)."""
     case = rec.get("case") or {}
     ops = case.get("ops")
     stream = case.get("stream", "")
-    out = {}
-    if ops is not None:
-        ops = [_untuple(o) for o in ops]
+    look = int(case.get("look") or 1)
+    out = {"state_queried_every": look}
     if ops is None:
         return {"note": "record carries no history"}
+    ops = [_untuple(o) for o in ops]
     is_ds = "dataspans" in stream or (ops and ops[0][0] in ("get", "pop")) or any(isinstance(o[2], (bytes, bytearray)) for o in ops if len(o) > 2)
+    keep = {k: v for k, v in case.items() if k not in ("step", "op", "look")}
     if is_ds:
-        trace, deep, ok, _d = exec_ds_history(ctx, ops, dict(case))
-        out["model_trace"] = ctx.coq_eval(IMPORTS, "ds_trace %s" % ds_term(ops[:max(1, len(trace))]))[-400:]
+        res = exec_ds_history(ctx, ops, keep, look=look)
+        out["model_checksum"] = ctx.coq_eval(IMPORTS, "ds_trace_look %s %s" % (T.nat(look), ds_term(ops)))[-200:]
     else:
-        trace, deep, ok = exec_spans_history(ctx, ops, dict(case))
-        out["model_trace"] = ctx.coq_eval(IMPORTS, "sp_trace %s" % spans_term(ops[:max(1, len(trace))]))[-400:]
-    out["impl_trace_tail"] = trace[-5:]
-    out["steps_executed"] = len(trace)
-    out["agrees_with_reference"] = ok
+        res = exec_spans_history(ctx, ops, keep, look=look)
+        out["model_checksum"] = ctx.coq_eval(IMPORTS, "sp_trace_look %s %s" % (T.nat(look), spans_term(ops)))[-200:]
+    out["impl_checksum"] = res["h"]
+    out["steps_executed"] = res["done"]
+    out["agrees_with_reference"] = res["ok"]
     return out
